@@ -98,6 +98,16 @@ def clear_caches():
 
 def main():
     req = json.load(sys.stdin)
+    if req.get("fork"):
+        # the same exploration inside a FORKED child of a process that has already imported and used the library
+        # (pre-forking servers, multiprocessing with the fork start method): locks and caches are inherited
+        import dateparser
+        dateparser.parse("1 January 2020", languages=["en"])
+        sys.stdout.flush()
+        pid = os.fork()
+        if pid != 0:
+            _, status = os.waitpid(pid, 0)
+            os._exit(0 if status == 0 else 3)
     libroot = os.path.join(sys.path[0] if os.path.isdir(os.path.join(sys.path[0], "dateparser")) else
                            [p for p in sys.path if os.path.isdir(os.path.join(p, "dateparser"))][0], "dateparser")
     fa, fb = build_call(req["A"]), build_call(req["B"])
@@ -228,3 +238,5 @@ def main():
 
 if __name__ == "__main__":
     main()
+    sys.stdout.flush()
+    os._exit(0)
